@@ -6,11 +6,16 @@ package main
 // constants to them. A shape that is no longer found is a broken tie.
 
 import (
+	"bytes"
 	"fmt"
 	"go/ast"
 	"go/constant"
+	"go/parser"
+	"go/printer"
 	"go/token"
 	"math/big"
+	"path/filepath"
+	"strings"
 )
 
 func init() { registerLocals("core/sync/adjustments", c19Locals) }
@@ -248,6 +253,181 @@ func c19Locals(files []*ast.File, fset *token.FileSet) []string {
 	}
 	if !guardFound {
 		broken("C19: the guard `if d > 0.0 { l.clk.Adjust(...) }` at the end of Pll.Do not found")
+	}
+	return out
+}
+
+// ---------------------------------------------------------------- the clock object
+//
+// C19 also rests on driver/clocks/sysclk_linux.go (Model/SysClock.lean): the statement shape of
+// SystemClock.Step / Adjust / Epoch / Sleep is re-read on every run and emitted into
+// Gen/Adjustments.lean (driver/clocks is not one of the extractor's packages, so this extension
+// parses the file itself); Props/C19Clock.lean pins the model's reading of them.
+
+func init() { registerLocals("core/sync/adjustments", c19ClockLocals) }
+
+func c19Norm(fset *token.FileSet, n ast.Node) string {
+	var b bytes.Buffer
+	printer.Fprint(&b, fset, n)
+	return strings.Join(strings.Fields(b.String()), " ")
+}
+
+func c19LeanList(name string, xs []string) string {
+	var sb strings.Builder
+	fmt.Fprintf(&sb, "def %s : List String := [", name)
+	for i, x := range xs {
+		if i > 0 {
+			sb.WriteString(", ")
+		}
+		sb.WriteString(leanString(x))
+	}
+	sb.WriteString("]")
+	return sb.String()
+}
+
+func c19ClockLocals(files []*ast.File, fset *token.FileSet) []string {
+	if len(files) == 0 {
+		return nil
+	}
+	// <repo>/core/sync/adjustments/<file>.go -> <repo>
+	repo := filepath.Dir(filepath.Dir(filepath.Dir(filepath.Dir(fset.Position(files[0].Pos()).Filename))))
+	path := filepath.Join(repo, "driver", "clocks", "sysclk_linux.go")
+	f, err := parser.ParseFile(fset, path, nil, 0)
+	if err != nil {
+		broken("C19: %s: %v", path, err)
+		return nil
+	}
+	var out []string
+	stmts := func(fd *ast.FuncDecl) []string {
+		var xs []string
+		for _, st := range fd.Body.List {
+			xs = append(xs, c19Norm(fset, st))
+		}
+		return xs
+	}
+	get := func(name string) *ast.FuncDecl {
+		fd := findFunc([]*ast.File{f}, "SystemClock."+name)
+		if fd == nil || fd.Body == nil {
+			broken("C19: method SystemClock.%s not found in driver/clocks/sysclk_linux.go", name)
+			return nil
+		}
+		return fd
+	}
+	isSel := func(e ast.Expr, field string) bool { // <anything>.<field>
+		s, ok := e.(*ast.SelectorExpr)
+		return ok && s.Sel.Name == field
+	}
+	count := func(n ast.Node, pred func(ast.Node) bool) int {
+		k := 0
+		ast.Inspect(n, func(n ast.Node) bool {
+			if n != nil && pred(n) {
+				k++
+			}
+			return true
+		})
+		return k
+	}
+	writes := func(field string) func(ast.Node) bool {
+		return func(n ast.Node) bool {
+			switch s := n.(type) {
+			case *ast.IncDecStmt:
+				return isSel(s.X, field)
+			case *ast.AssignStmt:
+				for _, l := range s.Lhs {
+					if isSel(l, field) {
+						return true
+					}
+				}
+			}
+			return false
+		}
+	}
+	isCall := func(st ast.Stmt, fn string) bool {
+		es, ok := st.(*ast.ExprStmt)
+		if !ok {
+			return false
+		}
+		c, ok := es.X.(*ast.CallExpr)
+		if !ok {
+			return false
+		}
+		id, ok := c.Fun.(*ast.Ident)
+		return ok && id.Name == fn
+	}
+	for _, name := range []string{"Epoch", "Step", "Adjust", "Sleep"} {
+		if fd := get(name); fd != nil {
+			out = append(out, c19LeanList("sysclk_"+strings.ToLower(name)+"_stmts", stmts(fd)))
+		}
+	}
+	if fd := get("Step"); fd != nil {
+		// no return statement; exactly one `c.epoch++`, an unconditional top-level statement after
+		// the (single, top-level) setOffset call
+		incIdx, offIdx := -1, -1
+		for i, st := range fd.Body.List {
+			if s, ok := st.(*ast.IncDecStmt); ok && s.Tok == token.INC && isSel(s.X, "epoch") {
+				incIdx = i
+			}
+			if isCall(st, "setOffset") {
+				offIdx = i
+			}
+		}
+		nRet := count(fd.Body, func(n ast.Node) bool { _, ok := n.(*ast.ReturnStmt); return ok })
+		nInc := count(fd.Body, writes("epoch"))
+		nOff := count(fd.Body, func(n ast.Node) bool {
+			c, ok := n.(*ast.CallExpr)
+			if !ok {
+				return false
+			}
+			id, ok := c.Fun.(*ast.Ident)
+			return ok && id.Name == "setOffset"
+		})
+		if nRet != 0 || nInc != 1 || nOff != 1 || incIdx < 0 || offIdx < 0 || offIdx > incIdx {
+			broken("C19: SystemClock.Step no longer has the shape `… setOffset(c.log, offset) … c.epoch++` (one unconditional top-level epoch increment after the one top-level setOffset call, no return): returns=%d epoch-writes=%d setOffset-calls=%d", nRet, nInc, nOff)
+		}
+		out = append(out,
+			fmt.Sprintf("def sysclk_step_returns : Int := %d", nRet),
+			fmt.Sprintf("def sysclk_step_epochWrites : Int := %d", nInc),
+			fmt.Sprintf("def sysclk_step_setOffsetCalls : Int := %d", nOff),
+			fmt.Sprintf("def sysclk_step_epochIncTopLevel : Bool := %v", incIdx >= 0),
+			fmt.Sprintf("def sysclk_step_setOffsetBeforeEpochInc : Bool := %v", offIdx >= 0 && offIdx < incIdx))
+	}
+	// which methods write c.epoch / c.adjustment at all
+	var epochW, adjW []string
+	for _, d := range f.Decls {
+		fd, ok := d.(*ast.FuncDecl)
+		if !ok || fd.Body == nil {
+			continue
+		}
+		for i := 0; i < count(fd.Body, writes("epoch")); i++ {
+			epochW = append(epochW, fd.Name.Name)
+		}
+		for i := 0; i < count(fd.Body, writes("adjustment")); i++ {
+			adjW = append(adjW, fd.Name.Name)
+		}
+	}
+	out = append(out, c19LeanList("sysclk_epochWriters", epochW), c19LeanList("sysclk_adjustmentWriters", adjW))
+	if fd := get("Adjust"); fd != nil {
+		// the goroutine: its statements, verbatim
+		var gs []string
+		ast.Inspect(fd.Body, func(n ast.Node) bool {
+			if g, ok := n.(*ast.GoStmt); ok {
+				if fl, ok := g.Call.Fun.(*ast.FuncLit); ok {
+					for _, st := range fl.Body.List {
+						gs = append(gs, c19Norm(fset, st))
+					}
+					var args []string
+					for _, a := range g.Call.Args {
+						args = append(args, c19Norm(fset, a))
+					}
+					gs = append(gs, "args: "+strings.Join(args, ", "))
+				}
+			}
+			return true
+		})
+		if len(gs) == 0 {
+			broken("C19: SystemClock.Adjust no longer starts its expiry goroutine with `go func(…) {…}(…)`")
+		}
+		out = append(out, c19LeanList("sysclk_adjust_goroutine", gs))
 	}
 	return out
 }
